@@ -201,6 +201,12 @@ class Ext:
         if (isinstance(a, VObj) and isinstance(b, VStr)) or (isinstance(a, VStr) and isinstance(b, VObj)):
             self.use(ex, "x == 'str value': true iff x is that str value (no foreign __eq__)")
             return VBool(ex.box(a) == ex.box(b))
+        if (isinstance(a, VObj) and isinstance(b, VCls)) or (isinstance(a, VCls) and isinstance(b, VObj)):
+            o = a if isinstance(a, VObj) else b
+            self.use(ex, "class == x: identity when x is a class too (type.__eq__; no metaclass of the library overrides __eq__)")
+            pe = sym.py_eq(ex.box(a), ex.box(b))
+            ex.side(z3.Implies(sym.sub(sym.ty(o.t), self.world.classes.of_py(type).t), pe == (ex.box(a) == ex.box(b))))
+            return VBool(pe)
         if isinstance(a, VObj) or isinstance(b, VObj):
             self.use(ex, "==: uninterpreted py_eq on objects of unknown class")
             return VBool(sym.py_eq(ex.box(a), ex.box(b)))
